@@ -130,7 +130,8 @@ def gen_chain(rng, opts=None):
                 files.remove(op[1])
                 files.append(op[2])
         st = {"name": "step%d" % i, "ops": ops, "key": i % 6,
-              "out": rng.choice(["", "built\n", "é\r\n"]), "err": rng.choice(["", "warn\n"]),
+              "out": rng.choice(["", "built\n", "é\r\n", "progress 10%\rprogress 100%\r", "a\r", "tail é"]),
+              "err": rng.choice(["", "warn\n", "é!\n", "e1\re2"]),
               "rc": 0 if rng.random() < 0.9 else rng.choice([1, 3]),
               "record_streams": rng.random() < 0.5, "use_dsse": opts.get("dsse", rng.random() < 0.4),
               "compact_json": rng.random() < 0.3, "record_environment": rng.random() < 0.3,
